@@ -95,6 +95,8 @@ func hC16Stream() {
 	// 3 plain sink with the handler writing every frame in two pieces
 	shape := verifChoose("writer", 4)
 	splitWrites := shape == 3
+	bigReads := verifChoose("handlerReads", 2) == 1
+	var acc []byte
 	p.tr.methods[pipePath].handler = http.HandlerFunc(func(w http.ResponseWriter, r *http.Request) {
 		// ping-pong: read one request message, write one response message, ...
 		switch target {
@@ -111,16 +113,37 @@ func hC16Stream() {
 		}
 		for k := 0; k < rounds; k++ {
 			if k < nReq {
+				// the client has sent message k and waits for the reply before it sends anything more
+				body.gated, body.avail = true, frameEnd[k]
 				var env [5]byte
-				if _, err := io.ReadFull(r.Body, env[:]); err != nil {
-					ok = false
-					return
+				var payload []byte
+				if bigReads {
+					// a handler that reads into a large buffer (grpc-go's transport, a reverse proxy) and cuts the
+					// frames out of what it has got
+					for len(acc) < 5 || len(acc) < 5+int(refBE32(acc[1:5])) {
+						buf := make([]byte, 16)
+						n, err := r.Body.Read(buf)
+						acc = append(acc, buf[:n]...)
+						if err != nil || (n == 0 && len(acc) > 64) {
+							ok = false
+							return
+						}
+					}
+					copy(env[:], acc[:5])
+					payload = acc[5 : 5+int(refBE32(env[1:]))]
+					acc = acc[5+len(payload):]
+				} else {
+					if _, err := io.ReadFull(r.Body, env[:]); err != nil {
+						ok = false
+						return
+					}
+					payload = make([]byte, int(refBE32(env[1:])))
+					if _, err := io.ReadFull(r.Body, payload); err != nil {
+						ok = false
+						return
+					}
 				}
-				payload := make([]byte, int(refBE32(env[1:])))
-				if _, err := io.ReadFull(r.Body, payload); err != nil {
-					ok = false
-					return
-				}
+				verifAssert(body.blocked == 0, "C16: delivering request message k never waits for bytes the client sends only after the reply")
 				m, dec := refDecodeMsg(codec, env[0] == 1 && comp, payload)
 				verifAssert(dec && bytesEq(m, reqMsgs[k].abstract), "C16: request message k delivered intact")
 				verifAssert(body.pos <= frameEnd[k], "C16: no read-ahead past the request message being delivered")
@@ -141,6 +164,7 @@ func hC16Stream() {
 				verifAssert(len(sink.flushes) > 0 && sink.flushes[len(sink.flushes)-1] == len(sink.body) && len(sink.body) > before, "C16: flushed after the message's last byte")
 			}
 		}
+		body.gated = false // the client has all its replies and ends its side
 		// end of stream
 		switch target {
 		case ProtocolGRPC:
